@@ -99,6 +99,13 @@ RULE = (
     "After every operation the independent oracle compares every live object with reference contents and reference manager identity, and the "
     "ledger checks every deallocation against the allocating identity and size. Function level: all 16 MemManagerStd assign-path trait "
     "combinations, 40 MemPool move / move-assign / swap rounds for two manager types, the F26 regression probes in child processes. "
+    "Seventh executable (c14_misc, property level only, no model lines): DataSelection and DataConstSelection of two tables (14 / 9 rows, "
+    "exception-mode settings with version checks, stateful and stateless manager) in 4 sizes (empty, 3 rows inside the internal capacity, every "
+    "third row, all rows) - copy construction, move construction, copy / move assignment and Swap for all 8 x 8 (a, b) pairs, the three self "
+    "forms, both conversions Selection -> ConstSelection, and 16 cases in which a table removes a row after Swap / assignment (the version "
+    "keeper must have travelled with the rows); HashSet / HashMap over the string specialisation of HashTraits (default-constructed traits, "
+    "0 / 1 / 5 / 40 / 300 keys, lookups by string, string_view and const char*); copy construction / copy assignment / default construction of "
+    "the InsertResult of HashSet, HashMap, TreeSet, TreeMap. "
     "evaluations = operations executed; distinct_nontrivial = distinct (suite, history index): every history contains at least two live "
     "objects and 40 value operations; counters op.* / null.* / f15.* give the per-kind totals (e.g. op.move_assign_unequal_elementwise, "
     "null.copy_assign_target, null.reused_at_once).")
@@ -109,6 +116,13 @@ RUNTIME_ONLY = [
     "reference contents and reference manager identity of every live object after every operation (also decides the unproved conjunct of the element-wise move)",
     "no copy construction of movable elements during move construction / move assignment / swap (element counters)",
     "MemPool move / move-assign / swap between equal and unequal managers (property-level checks only, no model)",
+    "c14_misc: a selection is compared as (list of raw-row pointers, column values read through the raws, column list address, version cell "
+    "and snapshot, manager identity, heap block or internal buffer): a copy equals the source in everything but the block and the "
+    "copy-constructed manager, shares no block with it, and both sides survive mutation / destruction of the other; a move and a swap hand "
+    "over the identical block; a moved-from selection is empty, clearable, swappable and assignable; self assignment / self swap change "
+    "nothing; Swap allocates nothing; after Swap / assignment a selection is rejected (invalid_argument) exactly when the table its rows "
+    "now come from removed a row; string-keyed sets / maps are compared with std::set / std::map after every copy / move / swap / "
+    "assignment; InsertResult copies compare equal field by field and leave the source unchanged",
     "regression of repaired findings: F26 (DataTable swap / assignment with stateful managers) probed in child processes; F12 (Clear on a moved-from tree) exercised inside the histories (counter null.clear)",
 ]
 
@@ -136,6 +150,7 @@ PROP = {
         {"name": "c14_wvec_set", "src": "c14_value.cpp", "sanitize": "asan", "flags": ["-DVF_PART=3"] + _FLAGS},
         {"name": "c14_wmap_uset", "src": "c14_value.cpp", "sanitize": "asan", "flags": ["-DVF_PART=4"] + _FLAGS},
         {"name": "c14_wumap", "src": "c14_value.cpp", "sanitize": "asan", "flags": ["-DVF_PART=5"] + _FLAGS},
+        {"name": "c14_misc", "src": "c14_value.cpp", "sanitize": "asan", "flags": ["-DVF_PART=6"] + _FLAGS},
     ],
     "rule": RULE,
     "runtime_only": RUNTIME_ONLY,
